@@ -129,10 +129,11 @@ G8(z) == {[fam |-> "G8", prog |-> G8Prog, roots |-> r] : r \in G8Roots}
 G8bDefs(p) == <<Struct("Wn", Mod, <<>>, <<SField("v", p)>>), Struct("Wu", Mod, <<>>, <<SField("", p)>>), Struct("Wb", Mod, <<>>, <<SField("v", P_Box(p))>>),
                 Struct("W2", Mod, <<>>, <<SField("v", p), SField("w", p)>>), Enum("We", Mod, <<>>, <<Variant("A", 0, <<SField("", p)>>)>>),
                 Struct("Wg", Mod, <<Param("T")>>, <<SField("v", T)>>), Struct("Wph", Mod, <<Param("T")>>, <<SField("v", p), SField("m", P_Phantom(T))>>),
-                Struct("Wcow", Mod, <<>>, <<SField("v", P_Cow(p))>>)>>
+                Struct("Wcow", Mod, <<>>, <<SField("v", P_Cow(p))>>), Struct("Wgu", Mod, <<Param("T")>>, <<SField("", T)>>)>>
               \o (IF p \in UnsignedLeaves THEN <<Struct("Wc", Mod, <<>>, <<CField("v", p)>>), Struct("Wct", Mod, <<>>, <<SField("v", P_Compact(p))>>)>> ELSE <<>>)
 G8b(z) == {[fam |-> "G8b", prog |-> Program(G8bDefs(p) \o <<Struct("Root", Mod, <<>>, [i \in DOMAIN G8bDefs(p) |->
-                       SField("f" \o ToString(i), IF G8bDefs(p)[i].name \in {"Wg", "Wph"} THEN P_Adt(G8bDefs(p)[i].name, <<p>>) ELSE A0(G8bDefs(p)[i].name))])>>, <<>>),
+                       SField("f" \o ToString(i), IF G8bDefs(p)[i].name \in {"Wg", "Wph", "Wgu"} THEN P_Adt(G8bDefs(p)[i].name, <<p>>) ELSE A0(G8bDefs(p)[i].name))]
+                       \o <<SField("other", P_Adt("Wgu", <<IF p = bool THEN u64 ELSE bool>>))>>)>>, <<>>),
               roots |-> <<A0("Root")>>] : p \in PrimLeaves}
 
 (* G2p: same-path families derived from programs: instantiation families (with and without id *)
